@@ -96,7 +96,9 @@ def _new_cm(it, m):
 
 
 def _hooks():
-    return {"inline_funcs": {"*module*"}, "method": _cm_method, "attr": _cm_attr, "func": _cm_func}
+    return {"inline_funcs": {"*module*"}, "method": _cm_method, "attr": _cm_attr, "func": _cm_func,
+            # helper classes introduced by refactorings are instantiated for real; the nested item classes of the format stay symbolic
+            "construct_module_classes": True, "construct_opaque": set(NESTED.values()) | {"EncodedValue", "ClassManager"}}
 
 
 def run(ctx):
@@ -295,6 +297,7 @@ def _check_binding(ctx, m):
         if len(res) != 1:
             raise AnalysisError("ClassDataItem.set_static_fields: abstract run split into %d paths" % len(res))
         r = res[0][1]
+        ctx.path(res[0][0])
         inst = "%d static value(s), 3 static fields" % nvals
         if isinstance(r, Raised):
             ctx.check("binding", inst, False, f, "set_static_fields raises %s" % r.exc, "set_static_fields raises %s with %s" % (r, inst), node=r.node)
@@ -305,6 +308,7 @@ def _check_binding(ctx, m):
                   "static values are not bound index by index to the static fields: with %s the bindings are %s, expected %s" % (inst, r, want),
                   detail="bindings %s" % want)
         ctx.count("bindings")
+    ctx.path(None)
     ctx.floor("bindings", 4)
 
 
@@ -432,6 +436,7 @@ def _check_class_binding(ctx, m):
     if len(res) != 1:
         raise AnalysisError("ClassDefItem.reload: abstract run on the two-class model split into %d paths (a condition on model state is undecided)" % len(res))
     r = res[0][1]
+    ctx.path(res[0][0])
     if isinstance(r, Raised):
         ctx.check("class-binding", "two class_defs sharing one encoded_array_item", False, f, "reload raises %s" % r.exc,
                   "ClassDefItem.reload raises %s on two class definitions that share their static values" % r, node=r.node)
@@ -444,6 +449,7 @@ def _check_class_binding(ctx, m):
                   "after %s the static fields of class %s are bound as %s, expected %s (two classes with equal static-value lists share one encoded_array_item)" % (inst, nm, b, want),
                   detail="bindings %s" % want)
         ctx.count("class_bindings")
+    ctx.path(None)
     ctx.floor("class_bindings", 3)
 
 
